@@ -1,3 +1,825 @@
+/-
+  Lemmas/ConcMgr.lean — invariants of the small-step model of concurrent use of one Manager
+  (CircuitModel/Conc/Mgr.lean), used by Props/C17Conc.lean.  Structure:
+    * `run_inv_mgr`: an invariant preserved by every enabled step holds after every schedule;
+    * sequential facts about `CM.Mgr.run` / `exec` (append, one winner by position, stable handle, registry);
+    * list facts (unique key in a list with Nodup keys, pigeonhole);
+    * `cmgr_TOK`: what is known of one thread at each program point; `cmgr_Inv`: the global invariant and its
+      preservation `cmgr_Inv_step`; `cmgr_inv_run`: it holds after every schedule.
+-/
 import CircuitModel.Conc.Mgr
+import CircuitProofs.Lemmas.Mgr
 namespace CM.Conc.Mgr
+open CM.Conc CM.Mgr
+
+/-! ### generic -/
+
+theorem run_inv_mgr {σ loc : Type} (S : Sys σ loc) (I : Config σ loc → Prop)
+    (hstep : ∀ (c : Config σ loc) (i : Nat) (l : loc) (s' : σ) (l' : loc), I c → c.locals[i]? = some l →
+      S.step i c.shared l = some (s', l') → I { shared := s', locals := c.locals.set i l' })
+    (c : Config σ loc) (h : I c) (sched : List Nat) : I (run S c sched) := by
+  induction sched generalizing c with
+  | nil => exact h
+  | cons i rest ih =>
+    simp only [run]
+    split
+    · exact ih c h
+    · rename_i l hl
+      split
+      · exact ih c h
+      · rename_i s' l' hs
+        exact ih _ (hstep c i l s' l' h hl hs)
+
+/-! ### sequential facts -/
+
+theorem cmgr_exec_append (s : State) (ops : List Op) (op : Op) :
+    exec s (ops ++ [op]) = (CM.Mgr.step (exec s ops) op).1 := by
+  simp [exec, List.foldl_append]
+
+theorem cmgr_run_append (s : State) (ops : List Op) (op : Op) :
+    CM.Mgr.run s (ops ++ [op]) = CM.Mgr.run s ops ++ [(CM.Mgr.step (exec s ops) op).2] := by
+  induction ops generalizing s with
+  | nil => simp [run_cons, run_nil, exec_nil]
+  | cons o ops ih => simp [run_cons, exec_cons, ih]
+
+/-- the circuit a `created` output carries -/
+def cmgr_createdOf : Out → Option Circuit
+  | .created x => some x
+  | _ => none
+
+theorem cmgr_step_circuits (s : State) (op : Op) :
+    (CM.Mgr.step s op).1.circuits.map (·.2) = s.circuits.map (·.2) ++ (cmgr_createdOf (CM.Mgr.step s op).2).toList := by
+  cases op with
+  | create n cs =>
+    show (create s n cs).1.circuits.map (·.2) = _ ++ (cmgr_createdOf (create s n cs).2).toList
+    cases hg : s.get n with
+    | some c => rw [create_some cs hg]; simp [cmgr_createdOf]
+    | none => rw [create_none cs hg]; simp [cmgr_createdOf]
+  | get n => simp [CM.Mgr.step, cmgr_createdOf]
+  | all => simp [CM.Mgr.step, cmgr_createdOf]
+  | stats n => simp [CM.Mgr.step, cmgr_createdOf]
+
+theorem cmgr_exec_circuits (s : State) (ops : List Op) :
+    (exec s ops).circuits.map (·.2) = s.circuits.map (·.2) ++ (CM.Mgr.run s ops).filterMap cmgr_createdOf := by
+  induction ops generalizing s with
+  | nil => simp [exec_nil, run_nil]
+  | cons op ops ih =>
+    rw [exec_cons, run_cons, ih, cmgr_step_circuits, List.filterMap_cons]
+    cases h : cmgr_createdOf (CM.Mgr.step s op).2 <;> simp
+
+/-- once the name is registered: every later create of it fails, every later get returns it -/
+theorem cmgr_after_registered (name : String) (w : Circuit) (ops : List Op) (s : State) (h : s.get name = some w)
+    (q : Nat) :
+    (∀ cs, ops[q]? = some (Op.create name cs) → (CM.Mgr.run s ops)[q]? = some Out.exists_) ∧
+    (ops[q]? = some (Op.get name) → (CM.Mgr.run s ops)[q]? = some (Out.got (some w))) := by
+  induction ops generalizing s q with
+  | nil => simp
+  | cons op ops ih =>
+    rw [run_cons]
+    cases q with
+    | zero =>
+      refine ⟨?_, ?_⟩
+      · intro cs hq
+        simp only [List.getElem?_cons_zero, Option.some.injEq] at hq
+        subst hq
+        show some (create s name cs).2 = _
+        rw [create_some cs h]
+      · intro hq
+        simp only [List.getElem?_cons_zero, Option.some.injEq] at hq
+        subst hq
+        simp [CM.Mgr.step, h]
+    | succ q =>
+      simp only [List.getElem?_cons_succ]
+      exact ih _ (step_get_preserve h op) q
+
+/-- a successful create registers its circuit -/
+theorem cmgr_created_registers (s : State) (name : String) (cs : List Layer) (w : Circuit)
+    (h : (CM.Mgr.step s (Op.create name cs)).2 = Out.created w) :
+    (CM.Mgr.step s (Op.create name cs)).1.get name = some w := by
+  change (create s name cs).2 = _ at h
+  show (create s name cs).1.get name = _
+  cases hg : s.get name with
+  | some c => rw [create_some cs hg] at h; cases h
+  | none =>
+    rw [create_none cs hg] at h
+    cases h
+    exact create_get_same cs hg
+
+/-- after the position of a successful create of the name -/
+theorem cmgr_after_created (name : String) (w : Circuit) (cs : List Layer) (ops : List Op) (s : State) (p q : Nat)
+    (hp : ops[p]? = some (Op.create name cs)) (ho : (CM.Mgr.run s ops)[p]? = some (Out.created w)) (hpq : p < q) :
+    (∀ cs', ops[q]? = some (Op.create name cs') → (CM.Mgr.run s ops)[q]? = some Out.exists_) ∧
+    (ops[q]? = some (Op.get name) → (CM.Mgr.run s ops)[q]? = some (Out.got (some w))) := by
+  induction ops generalizing s p q with
+  | nil => simp at hp
+  | cons op ops ih =>
+    rw [run_cons] at ho ⊢
+    cases q with
+    | zero => omega
+    | succ q =>
+      simp only [List.getElem?_cons_succ]
+      cases p with
+      | zero =>
+        simp only [List.getElem?_cons_zero, Option.some.injEq] at hp ho
+        subst hp
+        exact cmgr_after_registered name w ops _ (cmgr_created_registers s name cs w ho) q
+      | succ p =>
+        simp only [List.getElem?_cons_succ] at hp ho
+        exact ih _ p q hp ho (by omega)
+
+/-- a get that found the circuit: the name is registered from then on -/
+theorem cmgr_after_got (name : String) (g : Circuit) (ops : List Op) (s : State) (p q : Nat)
+    (hp : ops[p]? = some (Op.get name)) (ho : (CM.Mgr.run s ops)[p]? = some (Out.got (some g))) (hpq : p < q) :
+    ∀ cs', ops[q]? = some (Op.create name cs') → (CM.Mgr.run s ops)[q]? = some Out.exists_ := by
+  induction ops generalizing s p q with
+  | nil => simp at hp
+  | cons op ops ih =>
+    rw [run_cons] at ho ⊢
+    cases q with
+    | zero => omega
+    | succ q =>
+      simp only [List.getElem?_cons_succ]
+      cases p with
+      | zero =>
+        simp only [List.getElem?_cons_zero, Option.some.injEq] at hp ho
+        subst hp
+        have hg : s.get name = some g := by simpa [CM.Mgr.step] using ho
+        exact (cmgr_after_registered name g ops _ (step_get_preserve hg _) q).1
+      | succ p =>
+        simp only [List.getElem?_cons_succ] at hp ho
+        exact ih _ p q hp ho (by omega)
+
+/-- two successful creates of one name are the same position -/
+theorem cmgr_seq_one_winner (name : String) (ops : List Op) (s : State) (p q : Nat) (cs cs' : List Layer)
+    (w w' : Circuit)
+    (hp : ops[p]? = some (Op.create name cs)) (ho : (CM.Mgr.run s ops)[p]? = some (Out.created w))
+    (hq : ops[q]? = some (Op.create name cs')) (ho' : (CM.Mgr.run s ops)[q]? = some (Out.created w')) : p = q := by
+  rcases Nat.lt_trichotomy p q with h | h | h
+  · have := (cmgr_after_created name w cs ops s p q hp ho h).1 cs' hq
+    rw [this] at ho'; cases ho'
+  · exact h
+  · have := (cmgr_after_created name w' cs' ops s q p hq ho' h).1 cs hp
+    rw [this] at ho; cases ho
+
+/-- a get that returned a circuit returned the winner's -/
+theorem cmgr_seq_get_winner (name : String) (ops : List Op) (s : State) (p q : Nat) (cs : List Layer)
+    (w g : Circuit)
+    (hp : ops[p]? = some (Op.create name cs)) (ho : (CM.Mgr.run s ops)[p]? = some (Out.created w))
+    (hq : ops[q]? = some (Op.get name)) (ho' : (CM.Mgr.run s ops)[q]? = some (Out.got (some g))) : g = w := by
+  rcases Nat.lt_trichotomy p q with h | h | h
+  · have := (cmgr_after_created name w cs ops s p q hp ho h).2 hq
+    rw [this] at ho'
+    simpa using ho'.symm
+  · subst h; rw [hp] at hq; cases hq
+  · have := cmgr_after_got name g ops s q p hq ho' h cs hp
+    rw [this] at ho; cases ho
+
+/-- from a state without the name, an attempted create of it means one of them succeeds -/
+theorem cmgr_seq_some_winner (name : String) (ops : List Op) (s : State) (h : s.get name = none) (k : Nat)
+    (cs : List Layer) (hk : ops[k]? = some (Op.create name cs)) :
+    ∃ (p : Nat) (cs' : List Layer) (w : Circuit),
+      ops[p]? = some (Op.create name cs') ∧ (CM.Mgr.run s ops)[p]? = some (Out.created w) := by
+  induction ops generalizing s k with
+  | nil => simp at hk
+  | cons op ops ih =>
+    by_cases hop : ∃ cs', op = Op.create name cs'
+    · obtain ⟨cs', rfl⟩ := hop
+      refine ⟨0, cs', mkCircuit s name cs', rfl, ?_⟩
+      rw [run_cons]
+      show some (create s name cs').2 = _
+      rw [create_none cs' h]
+    · cases k with
+      | zero =>
+        simp only [List.getElem?_cons_zero, Option.some.injEq] at hk
+        exact absurd ⟨cs, hk⟩ hop
+      | succ k =>
+        simp only [List.getElem?_cons_succ] at hk
+        have h' : (CM.Mgr.step s op).1.get name = none := by
+          cases op with
+          | create n cs'' =>
+            have hn : n ≠ name := fun e => hop ⟨cs'', by rw [e]⟩
+            show (create s n cs'').1.get name = none
+            rw [create_get_other s cs'' hn]; exact h
+          | get n => exact h
+          | all => exact h
+          | stats n => exact h
+        obtain ⟨p, cs', w, h1, h2⟩ := ih _ h' k hk
+        exact ⟨p + 1, cs', w, by simpa using h1, by rw [run_cons]; simpa using h2⟩
+
+/-! ### list facts -/
+
+theorem cmgr_getElem?_set {α : Type} (xs : List α) (i j : Nat) (a b : α) (h : (xs.set i a)[j]? = some b) :
+    (j = i ∧ b = a) ∨ (j ≠ i ∧ xs[j]? = some b) := by
+  rw [List.getElem?_set] at h
+  by_cases hij : i = j
+  · subst hij
+    left
+    simp only [if_true] at h
+    split at h
+    · exact ⟨rfl, by simpa using h.symm⟩
+    · cases h
+  · right
+    simp only [hij, if_false] at h
+    exact ⟨fun e => hij e.symm, h⟩
+
+/-- in a list whose keys are distinct, the key determines the entry -/
+theorem cmgr_nodup_key {α β : Type} (l : List (α × β)) (h : (l.map (·.1)).Nodup) (e e' : α × β)
+    (he : e ∈ l) (he' : e' ∈ l) (hk : e.1 = e'.1) : e = e' := by
+  induction l with
+  | nil => cases he
+  | cons x xs ih =>
+    simp only [List.map_cons, List.nodup_cons, List.mem_map, not_exists, not_and] at h
+    rcases List.mem_cons.1 he with h1 | h1
+    · rcases List.mem_cons.1 he' with h2 | h2
+      · rw [h1, h2]
+      · subst h1; exact absurd hk.symm (h.1 e' h2)
+    · rcases List.mem_cons.1 he' with h2 | h2
+      · subst h2; exact absurd hk (h.1 e h1)
+      · exact ih h.2 h1 h2
+
+theorem cmgr_nodup_bound (n : Nat) (l : List Nat) (hnd : l.Nodup) (hlt : ∀ x ∈ l, x < n) : l.length ≤ n := by
+  induction n generalizing l with
+  | zero =>
+    cases l with
+    | nil => simp
+    | cons x xs => exact absurd (hlt x (by simp)) (by omega)
+  | succ n ih =>
+    have h1 : (l.erase n).length ≤ n := by
+      apply ih _ (hnd.erase n)
+      intro x hx
+      rw [hnd.mem_erase_iff] at hx
+      have := hlt x hx.2
+      omega
+    by_cases hn : n ∈ l
+    · rw [List.length_erase_of_mem hn] at h1; omega
+    · rw [List.erase_of_not_mem hn] at h1; omega
+
+theorem cmgr_cover_bound (n : Nat) (l : List Nat) (hall : ∀ i, i < n → i ∈ l) : n ≤ l.length := by
+  induction n generalizing l with
+  | zero => omega
+  | succ n ih =>
+    have hn : n ∈ l := hall n (by omega)
+    have h1 : n ≤ (l.erase n).length := by
+      apply ih
+      intro i hi
+      rw [List.mem_erase_of_ne (by omega)]
+      exact hall i (by omega)
+    rw [List.length_erase_of_mem hn] at h1
+    have : 0 < l.length := List.length_pos_of_mem hn
+    omega
+
+theorem cmgr_length_le_one {α : Type} (l : List α) (hnd : l.Nodup) (h : ∀ a ∈ l, ∀ b ∈ l, a = b) : l.length ≤ 1 := by
+  match l, hnd, h with
+  | [], _, _ => simp
+  | [_], _, _ => simp
+  | a :: b :: r, hnd, h =>
+    have : a = b := h a (by simp) b (by simp)
+    subst this
+    simp at hnd
+
+/-! ### one step, by cases -/
+
+theorem cmgr_step_cases (i : Nat) (s s' : Shared) (l l' : Local) (hs : step i s l = some (s', l')) :
+    (l.pc = .begin ∧ isWriter l.job = true ∧ s.writer = none ∧ s.readers = [] ∧
+        s' = { s with writer := some i } ∧ l' = { l with pc := .locked }) ∨
+    (l.pc = .begin ∧ isWriter l.job = false ∧ s.writer = none ∧
+        s' = { s with readers := i :: s.readers } ∧ l' = { l with pc := .locked }) ∨
+    (l.pc = .locked ∧
+        s' = { s with st := (CM.Mgr.step s.st l.job).1, log := s.log ++ [(i, l.job, (CM.Mgr.step s.st l.job).2)] } ∧
+        l' = { l with pc := .ran (CM.Mgr.step s.st l.job).2 }) ∨
+    (∃ o, l.pc = .ran o ∧ isWriter l.job = true ∧ s' = { s with writer := none } ∧ l' = { l with pc := .done o }) ∨
+    (∃ o, l.pc = .ran o ∧ isWriter l.job = false ∧ s' = { s with readers := s.readers.erase i } ∧
+        l' = { l with pc := .done o }) := by
+  obtain ⟨job, pc⟩ := l
+  cases pc with
+  | begin =>
+    simp only [step] at hs
+    cases hw : isWriter job with
+    | true =>
+      simp only [hw, if_true] at hs
+      split at hs
+      · rename_i hc
+        simp only [Option.some.injEq, Prod.mk.injEq] at hs
+        obtain ⟨rfl, rfl⟩ := hs
+        simp only [Bool.and_eq_true, Option.isNone_iff_eq_none, List.isEmpty_iff] at hc
+        left; exact ⟨rfl, rfl, hc.1, hc.2, rfl, rfl⟩
+      · cases hs
+    | false =>
+      simp only [hw, Bool.false_eq_true, if_false] at hs
+      split at hs
+      · rename_i hc
+        simp only [Option.some.injEq, Prod.mk.injEq] at hs
+        obtain ⟨rfl, rfl⟩ := hs
+        simp only [Option.isNone_iff_eq_none] at hc
+        right; left; exact ⟨rfl, rfl, hc, rfl, rfl⟩
+      · cases hs
+  | locked =>
+    simp only [step, Option.some.injEq, Prod.mk.injEq] at hs
+    obtain ⟨rfl, rfl⟩ := hs
+    right; right; left; exact ⟨rfl, rfl, rfl⟩
+  | ran o =>
+    simp only [step] at hs
+    cases hw : isWriter job with
+    | true =>
+      simp only [hw, if_true, Option.some.injEq, Prod.mk.injEq] at hs
+      obtain ⟨rfl, rfl⟩ := hs
+      right; right; right; left; exact ⟨o, rfl, rfl, rfl, rfl⟩
+    | false =>
+      simp only [hw, Bool.false_eq_true, if_false, Option.some.injEq, Prod.mk.injEq] at hs
+      obtain ⟨rfl, rfl⟩ := hs
+      right; right; right; right; exact ⟨o, rfl, rfl, rfl, rfl⟩
+  | done o => simp [step] at hs
+
+/-! ### what is known of one thread -/
+
+/-- holding the lock: between acquire and release -/
+def cmgr_inside : Pc → Bool
+  | .locked => true
+  | .ran _ => true
+  | _ => false
+
+/-- the thread's body is in the log iff it ran, with its own job and the output it holds -/
+def cmgr_logged (log : List (Nat × Op × Out)) (i : Nat) (l : Local) : Prop :=
+  match l.pc with
+  | .begin => i ∉ log.map (·.1)
+  | .locked => i ∉ log.map (·.1)
+  | .ran o => (i, l.job, o) ∈ log
+  | .done o => (i, l.job, o) ∈ log
+
+structure cmgr_TOK (s : Shared) (i : Nat) (l : Local) : Prop where
+  lg : cmgr_logged s.log i l
+  w : s.writer = some i ↔ (isWriter l.job = true ∧ cmgr_inside l.pc = true)
+  r : i ∈ s.readers ↔ (isWriter l.job = false ∧ cmgr_inside l.pc = true)
+
+/-- a step of another thread does not disturb what is known of thread `j` -/
+theorem cmgr_TOK_frame (s s' : Shared) (j : Nat) (l : Local)
+    (hw : s'.writer = some j ↔ s.writer = some j) (hr : j ∈ s'.readers ↔ j ∈ s.readers)
+    (hlog : s'.log = s.log ∨ ∃ i op o, i ≠ j ∧ s'.log = s.log ++ [(i, op, o)])
+    (h : cmgr_TOK s j l) : cmgr_TOK s' j l := by
+  refine ⟨?_, hw.trans h.w, hr.trans h.r⟩
+  have hlg := h.lg
+  rcases hlog with e | ⟨i, op, o, hij, e⟩
+  · rw [e]; exact hlg
+  · rw [e]
+    unfold cmgr_logged at hlg ⊢
+    split at hlg <;> simp_all <;> omega
+
+/-! ### the global invariant -/
+
+structure cmgr_Inv (ctors : List Ctor) (jobs : List Op) (c : Config Shared Local) : Prop where
+  hlen : c.locals.length = jobs.length
+  hjob : ∀ (i : Nat) (l : Local), c.locals[i]? = some l → jobs[i]? = some l.job
+  hrun : c.shared.log.map (·.2.2) = CM.Mgr.run { ctors := ctors } (c.shared.log.map (·.2.1))
+  hst : c.shared.st = exec { ctors := ctors } (c.shared.log.map (·.2.1))
+  hnd : (c.shared.log.map (·.1)).Nodup
+  hlj : ∀ e ∈ c.shared.log, jobs[e.1]? = some e.2.1
+  hthr : ∀ (i : Nat) (l : Local), c.locals[i]? = some l → cmgr_TOK c.shared i l
+  hw : ∀ j, c.shared.writer = some j → j < c.locals.length
+  hr : ∀ j ∈ c.shared.readers, j < c.locals.length
+  hrnd : c.shared.readers.Nodup
+  hwr : c.shared.writer.isSome = true → c.shared.readers = []
+
+theorem cmgr_Inv_init (ctors : List Ctor) (jobs : List Op) : cmgr_Inv ctors jobs (init { ctors := ctors } jobs) := by
+  refine ⟨by simp [init], ?_, by simp [init, run_nil], by simp [init, exec_nil], by simp [init], by simp [init], ?_,
+    by simp [init], by simp [init], by simp [init], by simp [init]⟩
+  · intro i l hl
+    simp only [init, List.getElem?_map, Option.map_eq_some_iff] at hl
+    obtain ⟨j, hj, rfl⟩ := hl
+    exact hj
+  · intro i l hl
+    simp only [init, List.getElem?_map, Option.map_eq_some_iff] at hl
+    obtain ⟨j, hj, rfl⟩ := hl
+    refine ⟨by simp [cmgr_logged, init], by simp [init, cmgr_inside], by simp [init, cmgr_inside]⟩
+
+/-- preservation, from what a step has to supply -/
+theorem cmgr_Inv_of (ctors : List Ctor) (jobs : List Op) (c : Config Shared Local) (i : Nat) (l l' : Local)
+    (s' : Shared) (h : cmgr_Inv ctors jobs c) (hl : c.locals[i]? = some l) (hjob : l'.job = l.job)
+    (hlog : (s'.log = c.shared.log ∧ s'.st = c.shared.st) ∨
+      (l.pc = .locked ∧ s'.log = c.shared.log ++ [(i, l.job, (CM.Mgr.step c.shared.st l.job).2)] ∧
+        s'.st = (CM.Mgr.step c.shared.st l.job).1))
+    (hi : cmgr_TOK s' i l')
+    (hfw : ∀ j, j ≠ i → (s'.writer = some j ↔ c.shared.writer = some j))
+    (hfr : ∀ j, j ≠ i → (j ∈ s'.readers ↔ j ∈ c.shared.readers))
+    (hw : ∀ j, s'.writer = some j → j < c.locals.length)
+    (hr : ∀ j ∈ s'.readers, j < c.locals.length)
+    (hrnd : s'.readers.Nodup)
+    (hwr : s'.writer.isSome = true → s'.readers = []) :
+    cmgr_Inv ctors jobs { shared := s', locals := c.locals.set i l' } := by
+  have hthr : ∀ j lj, (c.locals.set i l')[j]? = some lj → cmgr_TOK s' j lj := by
+    intro j lj hj
+    rcases cmgr_getElem?_set _ _ _ _ _ hj with ⟨rfl, rfl⟩ | ⟨hji, hj⟩
+    · exact hi
+    · refine cmgr_TOK_frame c.shared s' j lj (hfw j hji) (hfr j hji) ?_ (h.hthr j lj hj)
+      rcases hlog with ⟨e, _⟩ | ⟨_, e, _⟩
+      · exact Or.inl e
+      · exact Or.inr ⟨i, _, _, fun e => hji e.symm, e⟩
+  have hjob' : ∀ (j : Nat) (lj : Local), (c.locals.set i l')[j]? = some lj → jobs[j]? = some lj.job := by
+    intro j lj hj
+    rcases cmgr_getElem?_set _ _ _ _ _ hj with ⟨rfl, rfl⟩ | ⟨hji, hj⟩
+    · rw [hjob]; exact h.hjob _ l hl
+    · exact h.hjob j lj hj
+  rcases hlog with ⟨e1, e2⟩ | ⟨hpc, e1, e2⟩
+  · exact ⟨by simpa using h.hlen, hjob', by simpa only [e1] using h.hrun, by simpa only [e1, e2] using h.hst,
+      by simpa only [e1] using h.hnd, by simpa only [e1] using h.hlj, hthr, by simpa using hw, by simpa using hr,
+      hrnd, hwr⟩
+  · have hnot : i ∉ c.shared.log.map (·.1) := by
+      have := (h.hthr i l hl).lg
+      unfold cmgr_logged at this
+      rw [hpc] at this
+      exact this
+    refine ⟨by simpa using h.hlen, hjob', ?_, ?_, ?_, ?_, hthr, by simpa using hw, by simpa using hr, hrnd, hwr⟩
+    · show s'.log.map (·.2.2) = CM.Mgr.run _ (s'.log.map (·.2.1))
+      rw [e1, List.map_append, List.map_append, List.map_singleton, List.map_singleton, cmgr_run_append, ← h.hst,
+        h.hrun]
+    · show s'.st = exec _ (s'.log.map (·.2.1))
+      rw [e1, e2, List.map_append, List.map_singleton, cmgr_exec_append, ← h.hst]
+    · show (s'.log.map (·.1)).Nodup
+      rw [e1, List.map_append, List.map_singleton, List.nodup_append]
+      refine ⟨h.hnd, by simp, ?_⟩
+      intro a ha b hb
+      simp only [List.mem_singleton] at hb
+      subst hb
+      intro e; subst e; exact hnot ha
+    · show ∀ e ∈ s'.log, jobs[e.1]? = some e.2.1
+      intro e he
+      rw [e1, List.mem_append, List.mem_singleton] at he
+      rcases he with he | rfl
+      · exact h.hlj e he
+      · exact h.hjob i l hl
+
+theorem cmgr_lt_of_get {α : Type} (xs : List α) (i : Nat) (a : α) (h : xs[i]? = some a) : i < xs.length := by
+  rw [List.getElem?_eq_some_iff] at h
+  exact h.1
+
+theorem cmgr_Inv_step (ctors : List Ctor) (jobs : List Op) (c : Config Shared Local) (i : Nat) (l : Local)
+    (s' : Shared) (l' : Local) (h : cmgr_Inv ctors jobs c) (hl : c.locals[i]? = some l)
+    (hs : step i c.shared l = some (s', l')) :
+    cmgr_Inv ctors jobs { shared := s', locals := c.locals.set i l' } := by
+  have hi := h.hthr i l hl
+  have hlt := cmgr_lt_of_get _ _ _ hl
+  have hlg := hi.lg
+  unfold cmgr_logged at hlg
+  rcases cmgr_step_cases i c.shared s' l l' hs with
+    ⟨hpc, hjw, hwn, hrn, rfl, rfl⟩ | ⟨hpc, hjw, hwn, rfl, rfl⟩ | ⟨hpc, rfl, rfl⟩ | ⟨o, hpc, hjw, rfl, rfl⟩ |
+    ⟨o, hpc, hjw, rfl, rfl⟩
+  · -- a writer takes the lock
+    rw [hpc] at hlg
+    refine cmgr_Inv_of ctors jobs c i l _ _ h hl rfl (Or.inl ⟨rfl, rfl⟩) ⟨?_, ?_, ?_⟩ ?_ ?_ ?_ ?_ ?_ ?_
+    · simpa [cmgr_logged] using hlg
+    · simp [hjw, cmgr_inside]
+    · simp [hjw, hrn]
+    · intro j hj; simp [hwn, hj.symm]
+    · intro j hj; exact Iff.rfl
+    · intro j hj; simp only [Option.some.injEq] at hj; omega
+    · exact h.hr
+    · exact h.hrnd
+    · intro _; exact hrn
+  · -- a reader takes the lock
+    rw [hpc] at hlg
+    have hni : i ∉ c.shared.readers := by
+      intro hmem
+      have := hi.r.1 hmem
+      rw [hpc] at this
+      simp [cmgr_inside] at this
+    refine cmgr_Inv_of ctors jobs c i l _ _ h hl rfl (Or.inl ⟨rfl, rfl⟩) ⟨?_, ?_, ?_⟩ ?_ ?_ ?_ ?_ ?_ ?_
+    · simpa [cmgr_logged] using hlg
+    · simp [hjw, hwn]
+    · simp [hjw, cmgr_inside]
+    · intro j hj; exact Iff.rfl
+    · intro j hj; simp [hj]
+    · intro j hj; simp only [hwn] at hj; cases hj
+    · intro j hj
+      rcases List.mem_cons.1 hj with rfl | hj
+      · exact hlt
+      · exact h.hr j hj
+    · exact List.nodup_cons.2 ⟨hni, h.hrnd⟩
+    · intro hw; simp [hwn] at hw
+  · -- the body
+    rw [hpc] at hlg
+    refine cmgr_Inv_of ctors jobs c i l _ _ h hl rfl (Or.inr ⟨hpc, rfl, rfl⟩) ⟨?_, ?_, ?_⟩ ?_ ?_ ?_ ?_ ?_ ?_
+    · simp [cmgr_logged]
+    · have := hi.w; rw [hpc] at this; simpa [cmgr_inside] using this
+    · have := hi.r; rw [hpc] at this; simpa [cmgr_inside] using this
+    · intro j hj; exact Iff.rfl
+    · intro j hj; exact Iff.rfl
+    · exact h.hw
+    · exact h.hr
+    · exact h.hrnd
+    · exact h.hwr
+  · -- a writer releases
+    rw [hpc] at hlg
+    have hwi : c.shared.writer = some i := hi.w.2 ⟨hjw, by rw [hpc]; rfl⟩
+    have hre : c.shared.readers = [] := h.hwr (by simp [hwi])
+    refine cmgr_Inv_of ctors jobs c i l _ _ h hl rfl (Or.inl ⟨rfl, rfl⟩) ⟨?_, ?_, ?_⟩ ?_ ?_ ?_ ?_ ?_ ?_
+    · simpa [cmgr_logged] using hlg
+    · simp [cmgr_inside]
+    · simp [hjw, hre]
+    · intro j hj; simp [hwi, hj.symm]
+    · intro j hj; exact Iff.rfl
+    · intro j hj; cases hj
+    · exact h.hr
+    · exact h.hrnd
+    · intro hw; cases hw
+  · -- a reader releases
+    rw [hpc] at hlg
+    refine cmgr_Inv_of ctors jobs c i l _ _ h hl rfl (Or.inl ⟨rfl, rfl⟩) ⟨?_, ?_, ?_⟩ ?_ ?_ ?_ ?_ ?_ ?_
+    · simpa [cmgr_logged] using hlg
+    · have := hi.w; rw [hpc] at this; simpa [cmgr_inside, hjw] using this
+    · simp [cmgr_inside, h.hrnd.mem_erase_iff]
+    · intro j hj; exact Iff.rfl
+    · intro j hj; exact List.mem_erase_of_ne hj
+    · exact h.hw
+    · intro j hj; exact h.hr j (List.mem_of_mem_erase hj)
+    · exact h.hrnd.erase i
+    · intro hw
+      have := h.hwr hw
+      show c.shared.readers.erase i = []
+      rw [this]; rfl
+
+/-- the invariant holds after every schedule -/
+theorem cmgr_inv_run (ctors : List Ctor) (jobs : List Op) (sched : List Nat) :
+    cmgr_Inv ctors jobs (run sys (init { ctors := ctors } jobs) sched) :=
+  run_inv_mgr sys (cmgr_Inv ctors jobs)
+    (fun c i l s' l' h hl hs => cmgr_Inv_step ctors jobs c i l s' l' h hl hs) _ (cmgr_Inv_init ctors jobs) sched
+
+/-! ### consequences of the invariant -/
+
+theorem cmgr_result_iff (c : Config Shared Local) (i : Nat) (o : Out) :
+    result c i = some o ↔ ∃ l : Local, c.locals[i]? = some l ∧ l.pc = .done o := by
+  unfold result
+  cases hl : c.locals[i]? with
+  | none => simp
+  | some l =>
+    obtain ⟨job, pc⟩ := l
+    cases pc <;> simp
+
+theorem cmgr_allDone_iff (c : Config Shared Local) :
+    allDone c = true ↔ ∀ (i : Nat) (l : Local), c.locals[i]? = some l → ∃ o, l.pc = .done o := by
+  unfold allDone
+  rw [List.all_eq_true]
+  constructor
+  · intro h i l hl
+    have := h l (List.mem_of_getElem? hl)
+    cases hpc : l.pc <;> simp [hpc] at this ⊢
+  · intro h l hl
+    obtain ⟨i, hi⟩ := List.mem_iff_getElem?.1 hl
+    obtain ⟨o, ho⟩ := h i l hi
+    simp [ho]
+
+/-- a returned result is in the log, with the thread's own job -/
+theorem cmgr_result_logged {ctors : List Ctor} {jobs : List Op} {c : Config Shared Local}
+    (h : cmgr_Inv ctors jobs c) (i : Nat) (o : Out) (hr : result c i = some o) :
+    ∃ j, jobs[i]? = some j ∧ (i, j, o) ∈ c.shared.log := by
+  obtain ⟨l, hl, hpc⟩ := (cmgr_result_iff c i o).1 hr
+  refine ⟨l.job, h.hjob i l hl, ?_⟩
+  have := (h.hthr i l hl).lg
+  unfold cmgr_logged at this
+  rw [hpc] at this
+  exact this
+
+/-- ... at a position where the sequential run did that job with that output -/
+theorem cmgr_result_pos {ctors : List Ctor} {jobs : List Op} {c : Config Shared Local}
+    (h : cmgr_Inv ctors jobs c) (i : Nat) (j : Op) (o : Out) (hj : jobs[i]? = some j) (hr : result c i = some o) :
+    ∃ p : Nat, c.shared.log[p]? = some (i, j, o) ∧ (c.shared.log.map (·.2.1))[p]? = some j ∧
+      (CM.Mgr.run { ctors := ctors } (c.shared.log.map (·.2.1)))[p]? = some o := by
+  obtain ⟨j', hj', hmem⟩ := cmgr_result_logged h i o hr
+  rw [hj] at hj'
+  cases hj'
+  obtain ⟨p, hp⟩ := List.mem_iff_getElem?.1 hmem
+  refine ⟨p, hp, by simp [hp], ?_⟩
+  rw [← h.hrun]
+  simp [hp]
+
+theorem cmgr_linearizable {ctors : List Ctor} {jobs : List Op} {c : Config Shared Local}
+    (h : cmgr_Inv ctors jobs c) :
+    c.shared.log.map (·.2.2) = CM.Mgr.run { ctors := ctors } (c.shared.log.map (·.2.1)) ∧
+    c.shared.st = CM.Mgr.exec { ctors := ctors } (c.shared.log.map (·.2.1)) ∧
+    (c.shared.log.map (·.1)).Nodup ∧
+    (∀ e ∈ c.shared.log, jobs[e.1]? = some e.2.1) ∧
+    (∀ i o, result c i = some o → ∃ j, jobs[i]? = some j ∧ (i, j, o) ∈ c.shared.log) :=
+  ⟨h.hrun, h.hst, h.hnd, h.hlj, fun i o hr => cmgr_result_logged h i o hr⟩
+
+theorem cmgr_mutual_exclusion {ctors : List Ctor} {jobs : List Op} {c : Config Shared Local}
+    (h : cmgr_Inv ctors jobs c) :
+    (c.shared.writer.isSome → c.shared.readers = []) ∧
+    (∀ (i : Nat) (l : Local), c.locals[i]? = some l → (l.pc = .locked ∨ ∃ o, l.pc = .ran o) →
+        (if isWriter l.job then c.shared.writer = some i else i ∈ c.shared.readers)) := by
+  refine ⟨h.hwr, ?_⟩
+  intro i l hl hpc
+  have hin : cmgr_inside l.pc = true := by
+    rcases hpc with e | ⟨o, e⟩ <;> rw [e] <;> rfl
+  have ht := h.hthr i l hl
+  cases hw : isWriter l.job with
+  | true => simpa using ht.w.2 ⟨hw, hin⟩
+  | false => simpa using ht.r.2 ⟨hw, hin⟩
+
+/-! ### winners -/
+
+theorem cmgr_isWinner_iff (jobs : List Op) (c : Config Shared Local) (name : String) (i : Nat) :
+    isWinner jobs c name i = true ↔
+      ∃ (cs : List Layer) (w : Circuit), jobs[i]? = some (Op.create name cs) ∧ result c i = some (Out.created w) := by
+  unfold isWinner
+  cases hj : jobs[i]? with
+  | none => simp
+  | some op =>
+    cases op with
+    | create n cs =>
+      cases hr : result c i with
+      | none => simp
+      | some o => cases o <;> simp
+    | get n => simp
+    | all => simp
+    | stats n => simp
+
+theorem cmgr_mem_winners (jobs : List Op) (c : Config Shared Local) (name : String) (i : Nat) :
+    i ∈ winners jobs c name ↔
+      ∃ (cs : List Layer) (w : Circuit), jobs[i]? = some (Op.create name cs) ∧ result c i = some (Out.created w) := by
+  unfold winners
+  rw [List.mem_filter, cmgr_isWinner_iff, List.mem_range]
+  constructor
+  · exact fun h => h.2
+  · intro h
+    refine ⟨?_, h⟩
+    obtain ⟨cs, w, hj, _⟩ := h
+    exact cmgr_lt_of_get _ _ _ hj
+
+theorem cmgr_winners_nodup (jobs : List Op) (c : Config Shared Local) (name : String) :
+    (winners jobs c name).Nodup :=
+  List.Nodup.sublist List.filter_sublist List.nodup_range
+
+theorem cmgr_one_winner {ctors : List Ctor} {jobs : List Op} {c : Config Shared Local}
+    (h : cmgr_Inv ctors jobs c) (name : String) : (winners jobs c name).length ≤ 1 := by
+  apply cmgr_length_le_one _ (cmgr_winners_nodup jobs c name)
+  intro a ha b hb
+  obtain ⟨cs, w, hja, hra⟩ := (cmgr_mem_winners jobs c name a).1 ha
+  obtain ⟨cs', w', hjb, hrb⟩ := (cmgr_mem_winners jobs c name b).1 hb
+  obtain ⟨p, hp, hpo, hpr⟩ := cmgr_result_pos h a _ _ hja hra
+  obtain ⟨q, hq, hqo, hqr⟩ := cmgr_result_pos h b _ _ hjb hrb
+  have := cmgr_seq_one_winner name _ _ p q cs cs' w w' hpo hpr hqo hqr
+  subst this
+  rw [hp] at hq
+  simpa using congrArg (·.1) (Option.some.inj hq)
+
+theorem cmgr_get_winner {ctors : List Ctor} {jobs : List Op} {c : Config Shared Local}
+    (h : cmgr_Inv ctors jobs c) (name : String) (i j : Nat) (cs : List Layer) (w g : Circuit)
+    (hji : jobs[i]? = some (.create name cs)) (hri : result c i = some (.created w))
+    (hjj : jobs[j]? = some (.get name)) (hrj : result c j = some (.got (some g))) : g = w := by
+  obtain ⟨p, _, hpo, hpr⟩ := cmgr_result_pos h i _ _ hji hri
+  obtain ⟨q, _, hqo, hqr⟩ := cmgr_result_pos h j _ _ hjj hrj
+  exact cmgr_seq_get_winner name _ _ p q cs w g hpo hpr hqo hqr
+
+theorem cmgr_some_winner {ctors : List Ctor} {jobs : List Op} {c : Config Shared Local}
+    (h : cmgr_Inv ctors jobs c) (name : String) (hdone : allDone c = true) (k : Nat) (cs : List Layer)
+    (hk : jobs[k]? = some (Op.create name cs)) : ∃ t, t ∈ winners jobs c name := by
+  have hall := (cmgr_allDone_iff c).1 hdone
+  -- thread k has returned, so its create is in the log
+  have hklt : k < c.locals.length := by rw [h.hlen]; exact cmgr_lt_of_get _ _ _ hk
+  obtain ⟨lk, hlk⟩ : ∃ lk, c.locals[k]? = some lk := ⟨c.locals[k], List.getElem?_eq_getElem hklt⟩
+  obtain ⟨ok, hok⟩ := hall k lk hlk
+  have hrk : result c k = some ok := (cmgr_result_iff c k ok).2 ⟨lk, hlk, hok⟩
+  obtain ⟨pk, _, hpk, _⟩ := cmgr_result_pos h k _ _ hk hrk
+  -- so some create of the name succeeded in the sequential run
+  obtain ⟨p, cs', w, hp, hpr⟩ := cmgr_seq_some_winner name _ { ctors := ctors } (by simp [State.get]) pk cs hpk
+  rw [← h.hrun] at hpr
+  simp only [List.getElem?_map, Option.map_eq_some_iff] at hp hpr
+  obtain ⟨e, he, hej⟩ := hp
+  obtain ⟨e', he', heo⟩ := hpr
+  rw [he] at he'
+  cases he'
+  have hmem : e ∈ c.shared.log := List.mem_of_getElem? he
+  -- the thread that did it has returned that output
+  have hjt := h.hlj e hmem
+  have htlt : e.1 < c.locals.length := by rw [h.hlen]; exact cmgr_lt_of_get _ _ _ hjt
+  obtain ⟨lt, hlt⟩ : ∃ lt, c.locals[e.1]? = some lt := ⟨c.locals[e.1], List.getElem?_eq_getElem htlt⟩
+  obtain ⟨ot, hot⟩ := hall e.1 lt hlt
+  have hlg := (h.hthr e.1 lt hlt).lg
+  unfold cmgr_logged at hlg
+  rw [hot] at hlg
+  have heq := cmgr_nodup_key _ h.hnd _ _ hlg hmem rfl
+  have hot' : ot = Out.created w := by rw [← heo, ← heq]
+  refine ⟨e.1, (cmgr_mem_winners jobs c name e.1).2 ⟨cs', w, ?_, ?_⟩⟩
+  · rw [hjt, hej]
+  · exact (cmgr_result_iff c e.1 _).2 ⟨lt, hlt, by rw [hot, hot']⟩
+
+theorem cmgr_exactly_one_winner {ctors : List Ctor} {jobs : List Op} {c : Config Shared Local}
+    (h : cmgr_Inv ctors jobs c) (name : String) (hdone : allDone c = true)
+    (hk : ∃ (k : Nat) (cs : List Layer), jobs[k]? = some (Op.create name cs)) :
+    (winners jobs c name).length = 1 := by
+  obtain ⟨k, cs, hk⟩ := hk
+  obtain ⟨t, ht⟩ := cmgr_some_winner h name hdone k cs hk
+  have h1 := cmgr_one_winner h name
+  have h2 : 0 < (winners jobs c name).length := List.length_pos_of_mem ht
+  omega
+
+/-! ### the registry -/
+
+theorem cmgr_registry {ctors : List Ctor} {jobs : List Op} {c : Config Shared Local} (h : cmgr_Inv ctors jobs c) :
+    c.shared.st.circuits.map (·.2) =
+      c.shared.log.filterMap fun e => match e.2.2 with | .created x => some x | _ => none := by
+  rw [h.hst, cmgr_exec_circuits, ← h.hrun, List.filterMap_map]
+  simp only [List.map_nil, List.nil_append]
+  congr 1
+
+/-! ### no deadlock -/
+
+theorem cmgr_inside_isSome (i : Nat) (s : Shared) (l : Local) (h : cmgr_inside l.pc = true) :
+    (step i s l).isSome = true := by
+  obtain ⟨job, pc⟩ := l
+  cases pc <;> simp only [cmgr_inside] at h <;> simp only [step] <;> (try split) <;> simp at h ⊢
+
+theorem cmgr_begin_isSome (i : Nat) (s : Shared) (l : Local) (hpc : l.pc = .begin) (hw : s.writer = none)
+    (hr : s.readers = []) : (step i s l).isSome = true := by
+  obtain ⟨job, pc⟩ := l
+  simp only at hpc; subst hpc
+  simp only [step, hw, hr]
+  split <;> simp
+
+/-- if nobody is inside, the lock is free -/
+theorem cmgr_lock_free {ctors : List Ctor} {jobs : List Op} {c : Config Shared Local} (h : cmgr_Inv ctors jobs c)
+    (hno : ∀ (i : Nat) (l : Local), c.locals[i]? = some l → cmgr_inside l.pc = false) :
+    c.shared.writer = none ∧ c.shared.readers = [] := by
+  constructor
+  · cases hw : c.shared.writer with
+    | none => rfl
+    | some i =>
+      have hlt := h.hw i hw
+      have hl : c.locals[i]? = some c.locals[i] := List.getElem?_eq_getElem hlt
+      have := ((h.hthr i _ hl).w.1 hw).2
+      rw [hno i _ hl] at this
+      cases this
+  · apply List.eq_nil_iff_forall_not_mem.2
+    intro i hi
+    have hlt := h.hr i hi
+    have hl : c.locals[i]? = some c.locals[i] := List.getElem?_eq_getElem hlt
+    have := ((h.hthr i _ hl).r.1 hi).2
+    rw [hno i _ hl] at this
+    cases this
+
+theorem cmgr_progress {ctors : List Ctor} {jobs : List Op} {c : Config Shared Local} (h : cmgr_Inv ctors jobs c)
+    (hnd : allDone c = false) : ∃ (i : Nat) (l : Local), c.locals[i]? = some l ∧ (step i c.shared l).isSome := by
+  by_cases hin : ∃ (i : Nat) (l : Local), c.locals[i]? = some l ∧ cmgr_inside l.pc = true
+  · obtain ⟨i, l, hl, hi⟩ := hin
+    exact ⟨i, l, hl, cmgr_inside_isSome i c.shared l hi⟩
+  · have hno : ∀ (i : Nat) (l : Local), c.locals[i]? = some l → cmgr_inside l.pc = false := by
+      intro i l hl
+      cases hc : cmgr_inside l.pc with
+      | false => rfl
+      | true => exact absurd ⟨i, l, hl, hc⟩ hin
+    obtain ⟨hw, hr⟩ := cmgr_lock_free h hno
+    have : ¬ ∀ (i : Nat) (l : Local), c.locals[i]? = some l → ∃ o, l.pc = .done o := by
+      intro hall
+      rw [(cmgr_allDone_iff c).2 hall] at hnd
+      cases hnd
+    have : ∃ (i : Nat) (l : Local), c.locals[i]? = some l ∧ ¬ ∃ o, l.pc = .done o := by
+      apply Classical.byContradiction
+      intro hne
+      apply this
+      intro i l hl
+      apply Classical.byContradiction
+      intro hd
+      exact hne ⟨i, l, hl, hd⟩
+    obtain ⟨i, l, hl, hd⟩ := this
+    have hpc : l.pc = .begin := by
+      have := hno i l hl
+      cases hp : l.pc with
+      | begin => rfl
+      | locked => rw [hp] at this; cases this
+      | ran o => rw [hp] at this; cases this
+      | done o => exact absurd ⟨o, hp⟩ hd
+    exact ⟨i, l, hl, cmgr_begin_isSome i c.shared l hpc hw hr⟩
+
+theorem cmgr_quiescent {ctors : List Ctor} {jobs : List Op} {c : Config Shared Local} (h : cmgr_Inv ctors jobs c)
+    (hdone : allDone c = true) :
+    c.shared.writer = none ∧ c.shared.readers = [] ∧ c.shared.log.length = jobs.length := by
+  have hall := (cmgr_allDone_iff c).1 hdone
+  have hno : ∀ (i : Nat) (l : Local), c.locals[i]? = some l → cmgr_inside l.pc = false := by
+    intro i l hl
+    obtain ⟨o, ho⟩ := hall i l hl
+    rw [ho]; rfl
+  obtain ⟨hw, hr⟩ := cmgr_lock_free h hno
+  refine ⟨hw, hr, ?_⟩
+  have h1 : (c.shared.log.map (·.1)).length ≤ jobs.length := by
+    apply cmgr_nodup_bound _ _ h.hnd
+    intro x hx
+    obtain ⟨e, he, rfl⟩ := List.mem_map.1 hx
+    exact cmgr_lt_of_get _ _ _ (h.hlj e he)
+  have h2 : jobs.length ≤ (c.shared.log.map (·.1)).length := by
+    apply cmgr_cover_bound
+    intro i hi
+    have hlt : i < c.locals.length := by rw [h.hlen]; exact hi
+    have hl : c.locals[i]? = some c.locals[i] := List.getElem?_eq_getElem hlt
+    obtain ⟨o, ho⟩ := hall i _ hl
+    have hlg := (h.hthr i _ hl).lg
+    unfold cmgr_logged at hlg
+    rw [ho] at hlg
+    exact List.mem_map.2 ⟨_, hlg, rfl⟩
+  simp only [List.length_map] at h1 h2
+  omega
+
+theorem cmgr_never_deadlocks {ctors : List Ctor} {jobs : List Op} {c : Config Shared Local}
+    (h : cmgr_Inv ctors jobs c) :
+    (allDone c = false → ∃ (i : Nat) (l : Local), c.locals[i]? = some l ∧ (step i c.shared l).isSome) ∧
+    (allDone c = true → c.shared.writer = none ∧ c.shared.readers = [] ∧ c.shared.log.length = jobs.length) :=
+  ⟨cmgr_progress h, cmgr_quiescent h⟩
+
 end CM.Conc.Mgr
